@@ -146,7 +146,7 @@ extern void (*vf_on_alloc)(void *p, size_t size);
 extern int vf_cur_iface;         /* serial the next allocation will get */
 
 /* --------------------------------------------------------------- stations */
-enum { ST_OWN = 0, ST_OWN2, ST_M1, ST_M2, ST_M3, ST_BR, ST_S0, ST_S1, ST_PEER, ST_BC, ST_ZERO, ST_N };
+enum { ST_OWN = 0, ST_OWN2, ST_M1, ST_M2, ST_M3, ST_BR, ST_S0, ST_S1, ST_PEER, ST_BC, ST_ZERO, ST_SIB /* the address of another interface of this responder */, ST_N };
 extern uint8_t vf_station[64][6];
 const char *vf_station_name(int s);
 
